@@ -44,12 +44,12 @@ Proof.
   assert (Tn1 : t_next (tbl s1 k) = id1 + 1) by (rewrite Es1; unfold tbl; cbn; rewrite tgs; reflexivity).
   assert (Hsame : heap s1 = heap s /\ slots s1 = slots s /\ caches s1 = caches s) by (rewrite Es1; auto).
   destruct Hsame as (Eh1 & Esl1 & Ec1).
-  destruct (create_tail_run cfg k kw id1 s1) as (c' & i1 & Ei1 & (Ek1 & Eo1 & Ep1 & Ed1 & Ecc) & Et). cbn zeta in Et.
+  destruct (create_tail_run cfg k kw id1 s1) as (c' & i1 & Ei1 & (Ek1 & Eo1 & Ep1 & Ed1 & Ee1 & Ecc) & Et). cbn zeta in Et.
   rewrite Et, Ef1, Er. clear Et.
   set (o := length (heap s1)) in *.
   set (ifin := i_with_cv (i_with_dirty (i_with_pending (i_with_vals i1 (row_vals r0)) []) false) true).
   set (s2 := with_heap s1 (heap s1 ++ [ifin])).
-  assert (H2 : Inv cfg m [] s2) by (apply Inv_new; [exact H1|exact Eo1|split; [reflexivity|reflexivity]]).
+  assert (H2 : Inv cfg m [] s2) by (apply Inv_new; [exact H1|exact Eo1|split; [reflexivity|split; [reflexivity|exact Ee1]]]).
   assert (Go : Orm.get_inst s2 o = ifin) by (unfold Orm.get_inst, s2, o; cbn; apply nth_middle).
   assert (Hlt2 : (o < length (heap s2))%nat) by (unfold s2, o; cbn; rewrite app_length; cbn; lia).
   assert (Hb : ok_base m s2 ifin).
